@@ -322,7 +322,11 @@ def _ids_of(out, depth):
         else:
             for rx in DROP_LOOPS_RE:
                 if re.match(rx, pretty):
-                    ids[mangled + '.0'] = '%s.0:%d' % (mangled, depth + 1)
+                    # slice-drop loops: depth+1 iterations (a harness may really drop that many elements);
+                    # BTreeMap dying-iterator loops: 1 (harnesses only ever drop EMPTY maps: zero iterations; a harness
+                    # that drops a non-empty map fails the unwinding assertion -> undecided)
+                    k = 1 if 'btree' in pretty else depth + 1
+                    ids[mangled + '.0'] = '%s.0:%d' % (mangled, k)
     return ids
 
 
